@@ -653,11 +653,123 @@ let run_c12 c =
            end)
       | _ -> ()) c.fields
 
+(* ---------------- C19: sizes of commitments and proofs from the scenario's parameters ---------------- *)
+let run_c19 c =
+  let scheme = str1 c "scheme" in
+  let zn = Z.of_int in
+  let n = int1 c "n" in
+  let nv = if str1 c "num_vars" = "none" then 0 else int1 c "num_vars" in
+  let bound i = str1 c (Printf.sprintf "bound.%d" i) <> "none" in
+  let hiding i = str1 c (Printf.sprintf "hiding.%d" i) <> "none" in
+  let pairing = not (scheme = "ipa" || scheme = "hyrax") in
+  let bls_r = Z.of_string "52435875175126190479447740508185965837690552500527637822603658699938581184513" in
+  let fuel = nat_of_int 40000 in
+  (* linear-code parameters *)
+  let (lam, rho_inv, wf) =
+    if has c "lig" then (let v = List.map int_of_string (get c "lig") in (List.nth v 0, List.nth v 1, List.nth v 2 = 1))
+    else (128, (if scheme = "ligero_ml" then 2 else 4), true) in   (* the setup defaults of univariate_ligero / multilinear_ligero *)
+  let poly_len i =
+    if scheme = "ligero_uni" then
+      (let k = Printf.sprintf "poly.%d" i in
+       let co = if has c k then List.map (fun s -> Z.erem (Z.of_string s) bls_r) (get c k) else [] in
+       let rec trim = function [] -> [] | x :: t -> (match trim t with [] -> if Z.equal x Z.zero then [] else [ x ] | t' -> x :: t') in
+       max 1 (List.length (trim co)))
+    else 1 lsl nv in
+  let lin_shape i : (Z.t * Z.t * Z.t * Z.t) option =
+    if scheme = "brakedown_ml" then
+      (* n, m as compute_dimensions with the Brakedown distance; codeword length from the library's parameters *)
+      (match CalcT.calc_t (zn 128) (zn 61000) (zn 1521000) (zn (poly_len i)) bls_r fuel with
+       | Some (Result.Ok t0) ->
+         let (nr, m) = Sizes.dims_of t0 (zn (poly_len i)) in
+         if has c "m_ext" then
+           (let m_ext = Z.of_string (str1 c "m_ext") in
+            match CalcT.calc_t (zn 128) (zn 61000) (zn 1521000) m_ext bls_r fuel with
+            | Some (Result.Ok t) -> Some (nr, m, m_ext, t) | _ -> None)
+         else None
+       | _ -> None)
+    else
+      (match Sizes.lig_shape (zn lam) (zn rho_inv) bls_r fuel (zn (poly_len i)) with
+       | Some (((a, b), cc), d) -> Some (a, b, cc, d) | None -> None) in
+  List.iter (fun (tag, (g1, _g2, f)) ->
+      let g1 = zn g1 and f = zn f in
+      let d = zn 32 in
+      for i = 0 to n - 1 do
+        let sz = match scheme with
+          | "marlin" -> Some (Sizes.marlin_commitment_size g1 (bound i))
+          | "sonic" -> Some (Sizes.kzg_commitment_size g1)
+          | "ipa" -> Some (Sizes.ipa_commitment_size g1 (bound i))
+          | "pst13" -> Some (Sizes.marlin_commitment_size g1 false)
+          | "hyrax" -> Some (Sizes.hyrax_commitment_size g1 (zn nv))
+          | _ -> Some (Sizes.lincode_commitment_size d) in
+        (match sz with
+         | Some z -> obs1 (Printf.sprintf "size.comm.%d.%s" i tag) "N" (Z.to_string z);
+           obs1 (Printf.sprintf "bytes.comm.%d.%s" i tag) "N" (Z.to_string z)
+         | None -> ());
+        if tag = "c" then
+          (match scheme with
+           | "marlin" | "ipa" -> obs1 (Printf.sprintf "shape.comm.%d" i) "N" (if bound i then "1" else "0")
+           | "sonic" | "pst13" -> obs1 (Printf.sprintf "shape.comm.%d" i) "N" "0"
+           | "hyrax" -> obs1 (Printf.sprintf "shape.comm.%d" i) "N" (Z.to_string (Sizes.hyrax_dim (zn nv)))
+           | _ -> (match lin_shape i with
+               | Some (a, b, cc, _) -> obs (Printf.sprintf "shape.comm.%d" i) "N" [ Z.to_string a; Z.to_string b; Z.to_string cc; "32" ]
+               | None -> obs1 (Printf.sprintf "shape.comm.%d" i) "N" "model-refused"))
+      done;
+      let nops = int1 c "nops" in
+      for t = 0 to nops - 1 do
+        match get c (Printf.sprintf "op.%d" t) with
+        | "single" :: _pt :: sel ->
+          let sel = List.map int_of_string sel in
+          let h = List.exists hiding sel in
+          let b01 x = if x then "1" else "0" in
+          let (sz, shape) = match scheme with
+            | "marlin" | "sonic" -> (Some (Sizes.kzg_proof_size g1 f h), [ b01 h ])
+            | "ipa" ->
+              let s = int1 c "supported_degree" in
+              let r = Sizes.ipa_rounds (zn s) in
+              (Some (Sizes.ipa_proof_size g1 f r h), [ Z.to_string r; Z.to_string r; b01 h; b01 h ])
+            | "pst13" -> (Some (Sizes.pst13_proof_size g1 f (zn nv) h), [ string_of_int nv; b01 h ])
+            | "hyrax" ->
+              let one = Sizes.hyrax_proof_size g1 f (zn nv) in
+              (Some (Z.add (zn 8) (Z.mul (zn (List.length sel)) one)),
+               string_of_int (List.length sel) :: List.map (fun _ -> Z.to_string (Sizes.hyrax_dim (zn nv))) sel)
+            | _ ->
+              let shapes = List.map lin_shape sel in
+              if List.exists (fun x -> x = None) shapes then (None, [ "model-refused" ])
+              else begin
+                let shapes = List.map (function Some x -> x | None -> assert false) shapes in
+                let total = List.fold_left (fun acc (nr, m, m_ext, tt) ->
+                    Z.add acc (Sizes.lincode_proof_size f d nr m tt (Sizes.path_depth m_ext) wf)) (zn 8) shapes in
+                let sh = string_of_int (List.length sel) ::
+                         List.concat_map (fun (nr, m, m_ext, tt) ->
+                             [ Z.to_string tt; Z.to_string (Sizes.path_depth m_ext); "32"; "32"; Z.to_string m; Z.to_string tt; Z.to_string nr;
+                               b01 wf; (if wf then Z.to_string m else "0"); "1" ]) shapes in
+                (Some total, sh)
+              end in
+          (* Brakedown codewords need not fill the Merkle tree: a path whose sibling is a padding leaf carries a
+             shorter sibling digest, and which columns are opened depends on the transcript; the size is given as
+             [all siblings full; every path at the last leaf] *)
+          let slack = if scheme = "brakedown_ml" then
+              (match shape with cnt :: rest when cnt <> "model-refused" ->
+                 let rec tsum l = match l with tt :: _ :: _ :: _ :: _ :: _ :: _ :: _ :: _ :: _ :: tl -> int_of_string tt + tsum tl | _ -> 0 in
+                 32 * tsum rest
+               | _ -> 0) else 0 in
+          (match sz with
+           | Some z ->
+             let toks = if slack > 0 then [ Z.to_string z; Z.to_string (Z.sub z (zn slack)) ] else [ Z.to_string z ] in
+             obs (Printf.sprintf "size.proof.%d.%s" t tag) "N" toks;
+             obs (Printf.sprintf "bytes.proof.%d.%s" t tag) "N" toks
+           | None -> ());
+          if tag = "c" then obs (Printf.sprintf "shape.proof.%d" t) "N" shape
+        | _ -> ()
+      done)
+    [ ("c", if pairing then (48, 96, 32) else (32, 32, 32)); ("u", if pairing then (96, 192, 32) else (64, 64, 32)) ]
+
 let run_pc c =
+  if has c "c19" then run_c19 c else begin
   (match str1 c "scheme" with
    | "marlin" when has c "beta" -> run_pc_marlin c
    | _ -> ());
-  if has c "c12" then run_c12 c
+  if has c "c12" then run_c12 c end
 
 (* ---------------- C13: calculate_t, indices, Reed-Solomon ---------------- *)
 let field_of = function
